@@ -1,33 +1,381 @@
-(* Props/C03.v — property C03: accepted ciphertext always yields exactly the sender's complete
-   plaintext.  Statements only; proofs are in Proofs/. *)
-From Kestrel Require Import Bytes Outcome IO Prims.
-From Kestrel.Model Require Import AeadWrap Chunks.
-From Kestrel.Proofs Require Import ChunksDec ChunksAuth.
+(* Props/C03.v — property C03: accepted ciphertext always yields exactly the sender's complete plaintext.
+   Statements only; proofs are in Proofs/ChunksAuth.v, CombineAuth.v, CombineChunks.v, CombineTamper.v.
 
-(* Chunk layer, every offered byte string, every I/O script (faults included), every honest chunk list,
-   every key/aad/chunk size: if no AEAD open that succeeded in the run is a forgery (i.e. every such
-   open is one of the honest file's seals under that key), the sink received a prefix of the honest
-   plaintext, and Ok means it received all of it. *)
+   Two kinds of theorem.
+   (A) AUTHENTICITY, for EVERY offered byte string and EVERY I/O script (short reads, faults, anything):
+       no premise relates the offered bytes to honest files, so bit flips, truncation, extension, reordering,
+       duplication, dropping and splicing of chunks or header fields are all instances.  The cryptographic
+       step is an explicit premise over the run's own event log, never proved: every AEAD open that SUCCEEDED
+       during the run opened one of the honest file's seals under that file's key ([no_forgery] for one
+       stream, [honest_open] for several streams with pairwise distinct keys — the no-forgery / key-separation
+       idealisation of ChaCha20-Poly1305).  In that sense these theorems are PARTIAL, as planned in DESIGN 4.
+       Conclusion: what reached the sink is a prefix of ONE honest plaintext, and Ok means all of it.
+   (B) FRAMING corollaries with NO cryptographic premise (AEAD correctness only): every proper prefix of an
+       honest stream / file is rejected; an honest stream / file followed by >= 1 byte is rejected.
+   NOT stated here (not proved in this development): that overwriting the advisory 8-byte per-record counter
+   field leaves outcome and output unchanged (DESIGN's C03_counter_advisory), and C03_len_bound as a separate
+   theorem (the bound check itself is part of the model and of C09_bounded_reads).  The rejection of
+   single-bit changes is an instance of (A) under the no-forgery premise, not an unconditional theorem.
+   Key mode: PARTIAL — authenticity is proved for the chunk stream relative to the file key the handshake
+   yields (C03_key_chunks_authentic_partial); that handshake fields of different honest files cannot be recombined
+   (DESIGN's C03_key_authentic, needing hash-injectivity premises) is NOT proved. *)
+From Kestrel Require Import Bytes Outcome IO IOFacts Prims.
+From Kestrel.gen Require Import Extracted.
+From Kestrel.Model Require Import AeadWrap Chunks Noise NoiseSpec Files EventPreds FilesSpec ChunksSpec ChunksRobustDefs CombineDefs.
+From Kestrel.Proofs Require Import ChunksDec ChunksAuth CombineFiles CombineChunks CombineAuth CombineTamper.
+Local Open Scope N_scope.
+
+(* (A) chunk layer, one honest stream.  Every offered byte string, every io state (any script, faults included), every key/aad/chunk size, every honest chunk list: if no successful open of the run is a forgery, the sink received a prefix of the honest plaintext, and Ok means it received all of it.  (kept from the earlier version) *)
 Theorem C03_chunks_authentic :
-  forall (P : prims) (key aad : bytes) (cs : N) (chunks : list bytes),
-    length key = 32%nat -> aead_ok P ->
-  forall (s : io) res s',
-    decrypt_chunks P key aad cs s = (res, s') ->
-    no_forgery P key aad chunks (log s') ->
-    (exists written rest, w_out (wtr s') = w_out (wtr s) ++ written /\ written ++ rest = concat chunks) /\
-    (res = Ok tt -> w_out (wtr s') = w_out (wtr s) ++ concat chunks).
-Proof. intros P key aad cs chunks Hk Ha s res s' E NF. exact (dec_auth_file P key aad cs Hk Ha chunks _ s res s' E NF). Qed.
+  forall (P : prims) (key : list N) (aad : bytes) (cs : N) (chunks : list bytes),
+  length key = 32%nat ->
+  aead_ok P ->
+  forall (s : io) (res : outcome derr unit) (s1 : io),
+  decrypt_chunks P key aad cs s = (res, s1) ->
+  no_forgery P key aad chunks (log s1) ->
+  (exists written rest : list N,
+     w_out (wtr s1) = w_out (wtr s) ++ written /\ written ++ rest = concat chunks) /\
+  (res = Ok tt -> w_out (wtr s1) = w_out (wtr s) ++ concat chunks).
+Proof. exact (fun P key aad cs chunks Hk Ha s res s1 => dec_auth_top P Ha key aad cs chunks s res s1 Hk). Qed.
 Print Assumptions C03_chunks_authentic.
 
-(* Finer form: what was written is whole honest chunks j..j'-1, plus a cut piece of chunk j' only when
-   the sink itself failed in the middle of a write (then the result is that write error). *)
+(* (A) finer: what was written is whole honest chunks j..j'-1, plus a cut piece of chunk j' only when the sink itself failed in the middle of a write (then the result is that write error)  (kept) *)
 Theorem C03_chunks_whole :
-  forall (P : prims) (key aad : bytes) (cs : N) (chunks : list bytes),
-    length key = 32%nat -> aead_ok P ->
-  forall fuel (j : nat) (s : io) res s',
-    (j <= length chunks)%nat ->
-    decrypt_chunks_loop P fuel key aad cs (N.of_nat j) s = (res, s') ->
-    no_forgery P key aad chunks (log s') ->
-    post chunks j s res s'.
-Proof. intros P key aad cs chunks Hk Ha. exact (dec_auth P key aad cs Hk Ha chunks). Qed.
+  forall (P : prims) (key aad : bytes) (cs : N),
+  length key = 32%nat ->
+  aead_ok P ->
+  forall (chunks : list bytes) (fuel j : nat) (s : io) (res : outcome derr unit) (s' : io),
+  (j <= length chunks)%nat ->
+  decrypt_chunks_loop P fuel key aad cs (N.of_nat j) s = (res, s') ->
+  no_forgery P key aad chunks (log s') -> post chunks j s res s'.
+Proof. exact (dec_auth). Qed.
 Print Assumptions C03_chunks_whole.
+
+(* (A) several honest streams (key_i, chunks_i) with pairwise distinct keys, same associated data.  Premise: every successful open of the run is an honest seal of some listed stream under that stream's key.  Then either the run's key belongs to no listed stream — and it failed with the sink untouched — or it is the key of exactly one listed stream, and what was released is a prefix of THAT stream's plaintext, all of it if Ok.  Records of other authentic files cannot be spliced in. *)
+Theorem C03_chunks_authentic_multi :
+  forall P : prims,
+  aead_ok P ->
+  forall (files : list (bytes * list bytes)) (key' : list N) (aad : bytes) (cs : N) 
+    (s : io) (res : outcome derr unit) (s' : io),
+  length key' = 32%nat ->
+  NoDup (map fst files) ->
+  decrypt_chunks P key' aad cs s = (res, s') ->
+  Forall (honest_open P files aad) (log s') ->
+  (forall chunks : list bytes, ~ In (key', chunks) files) /\
+  (exists e : derr, res = Err e) /\ w_out (wtr s') = w_out (wtr s) \/
+  (exists chunks : list bytes, In (key', chunks) files /\ released_prefix s s' res chunks).
+Proof. exact (dec_auth_multi). Qed.
+Print Assumptions C03_chunks_authentic_multi.
+
+(* what [released_prefix s s' res chunks] says, unfolded (by definition): the bytes appended to the sink are a prefix of the honest plaintext, and Ok means all of it was appended *)
+Theorem C03_released_prefix_meaning :
+  forall (s s' : io) (res : outcome derr unit) (chunks : list bytes),
+  released_prefix s s' res chunks <->
+  (exists written rest : list N,
+     w_out (wtr s') = w_out (wtr s) ++ written /\ written ++ rest = concat chunks) /\
+  (res = Ok tt -> w_out (wtr s') = w_out (wtr s) ++ concat chunks).
+Proof. exact (released_prefix_unfold). Qed.
+Print Assumptions C03_released_prefix_meaning.
+
+(* what the premise [honest_open] requires of a successful open event (by definition); all other events satisfy it trivially *)
+Theorem C03_honest_open_meaning :
+  forall (P : prims) (files : list (bytes * list bytes)) (aad key : bytes) (n : N) (ad ct pt : bytes),
+  honest_open P files aad (EvOpen key n ad ct (Some pt)) <->
+  (exists chunks : list bytes,
+     In (key, chunks) files /\ In (n, ad, ct) (seal_log_from P key aad 0 chunks)).
+Proof. exact (honest_open_unfold). Qed.
+Print Assumptions C03_honest_open_meaning.
+
+(* (A) password FILE level, one honest file (pw, salt, chunks).  For EVERY io state — any offered bytes (header included: wrong magic, other salt, truncated header ...), any script — and ANY password pw' used for decryption: under the premise that every successful open of the run is an honest seal of that file under scrypt(pw, salt), what pass_decrypt released is a prefix of the honest plaintext, and Ok means exactly the honest plaintext. *)
+Theorem C03_pass_file_authentic :
+  forall P : prims,
+  aead_ok P ->
+  hash_ok P ->
+  forall (pw salt : bytes) (chunks : list bytes) (pw' : bytes) (s : io) (res : outcome derr unit)
+    (s' : io),
+  pass_decrypt P pw' s = (res, s') ->
+  Forall (honest_open P [(kdf P pw salt, chunks)] x_pass_file_magic) (log s') ->
+  released_prefix s s' res chunks.
+Proof. exact (pass_file_authentic). Qed.
+Print Assumptions C03_pass_file_authentic.
+
+(* (A) password FILE level, several honest files (pw_i, salt_i, chunks_i) with pairwise distinct derived keys.  Every io state.  Either the run failed with the sink untouched, or the offered bytes begin magic ++ salt' (salt' is whatever 32 bytes follow the magic — possibly taken from another file), scrypt(pw, salt') is the key of exactly one honest file i, and a prefix of file i's plaintext was released — all of it if Ok.  A salt or chunks moved in from another authentic file can therefore only yield that other file's complete plaintext, or an error. *)
+Theorem C03_pass_files_authentic_multi :
+  forall P : prims,
+  aead_ok P ->
+  hash_ok P ->
+  forall (files : list (bytes * bytes * list bytes)) (pw : bytes) (s : io) (res : outcome derr unit)
+    (s' : io),
+  NoDup (map fst (pass_keyed P files)) ->
+  pass_decrypt P pw s = (res, s') ->
+  Forall (honest_open P (pass_keyed P files) x_pass_file_magic) (log s') ->
+  (exists e : derr, res = Err e) /\ w_out (wtr s') = w_out (wtr s) \/
+  (exists (pwi salti : bytes) (chunks : list bytes) (salt' rest : list N),
+     In (pwi, salti, chunks) files /\
+     r_data (rdr s) = x_pass_file_magic ++ salt' ++ rest /\
+     length salt' = 32%nat /\ kdf P pw salt' = kdf P pwi salti /\ released_prefix s s' res chunks).
+Proof. exact (pass_decrypt_authentic). Qed.
+Print Assumptions C03_pass_files_authentic_multi.
+
+(* (A) key FILE level, PARTIAL: the chunk stream is authentic relative to the file key the handshake yields.  Every io state, honest streams listed by file key (pairwise distinct).  Either no sender is reported and the sink is untouched, or the offered bytes begin prologue ++ msg where msg verified as a Noise handshake under (r, rpk) and yielded (payload, spk, hh); HKDF(payload, hh) is the key of exactly one honest stream, a prefix of whose plaintext was released; Ok reports that spk and means all of it was released.  NOT covered: that (payload, spk, hh) can only come from an honest handshake (cryptographic), and that handshake fields of different files cannot be recombined. *)
+Theorem C03_key_chunks_authentic_partial :
+  forall P : prims,
+  aead_ok P ->
+  hash_ok P ->
+  forall (files : list (bytes * list bytes)) (r rpk : bytes) (s : io) (res : outcome derr bytes)
+    (s' : io),
+  NoDup (map fst files) ->
+  key_decrypt P r rpk s = (res, s') ->
+  Forall (honest_open P files []) (log s') ->
+  (forall spk : bytes, res <> Ok spk) /\ w_out (wtr s') = w_out (wtr s) \/
+  (exists (msg rest : list N) (payload spk hh : bytes) (chunks : list bytes),
+     r_data (rdr s) = x_prologue ++ msg ++ rest /\
+     length msg = 128%nat /\
+     noise_decrypt P r rpk x_prologue msg = Ok (payload, spk, hh) /\
+     In (file_key P payload hh, chunks) files /\
+     (exists written more : list N,
+        w_out (wtr s') = w_out (wtr s) ++ written /\ written ++ more = concat chunks) /\
+     (forall spk' : bytes,
+      res = Ok spk' -> spk' = spk /\ w_out (wtr s') = w_out (wtr s) ++ concat chunks)).
+Proof. exact (key_decrypt_chunks_authentic). Qed.
+Print Assumptions C03_key_chunks_authentic_partial.
+
+(* (B) no cryptographic premise.  Honest stream F = spec_chunks key aad chunks (chunks non-empty, each <= cs < 2^32).  data is any PROPER prefix of F (data ++ suffix = F, suffix non-empty): truncation at every offset.  For EVERY io state with that data — every script, faults and zero-length reads included — the result is not Ok, and the sink holds a prefix of the honest plaintext. *)
+Theorem C03_prefix_rejected :
+  forall (P : prims) (key aad : bytes) (cs : N),
+  length key = 32%nat ->
+  aead_ok P ->
+  cs < 4294967296 ->
+  forall (chunks : list bytes) (data suffix : list N) (s : io) (res : outcome derr unit) (s' : io),
+  chunks <> [] ->
+  Forall (chunk_ok cs) chunks ->
+  data ++ suffix = spec_chunks P key aad chunks ->
+  suffix <> [] ->
+  r_data (rdr s) = data ->
+  decrypt_chunks P key aad cs s = (res, s') ->
+  res <> Ok tt /\
+  (exists written more : list N,
+     w_out (wtr s') = w_out (wtr s) ++ written /\ concat chunks = written ++ more).
+Proof. exact (dec_prefix_rejected). Qed.
+Print Assumptions C03_prefix_rejected.
+
+(* (B) the same under conforming scripts, exactly: the error is the read error of a short file (DIORead OtherErr) and exactly the first j whole chunks were released, j < number of chunks *)
+Theorem C03_prefix_rejected_conforming :
+  forall (P : prims) (key aad : bytes) (cs : N),
+  length key = 32%nat ->
+  aead_ok P ->
+  cs < 4294967296 ->
+  forall (chunks : list bytes) (data suffix : list N) (s : io),
+  chunks <> [] ->
+  Forall (chunk_ok cs) chunks ->
+  data ++ suffix = spec_chunks P key aad chunks ->
+  suffix <> [] ->
+  reader_ok (rdr s) ->
+  writer_ok (wtr s) ->
+  r_data (rdr s) = data ->
+  exists (s' : io) (j : nat),
+    (j < length chunks)%nat /\
+    decrypt_chunks P key aad cs s = (Err (DIORead OtherErr), s') /\
+    w_out (wtr s') = w_out (wtr s) ++ concat (firstn j chunks).
+Proof. exact (dec_prefix_rejected_conforming). Qed.
+Print Assumptions C03_prefix_rejected_conforming.
+
+(* (B) honest stream followed by at least one byte (F ++ x :: rest), conforming scripts: the result is Err DUnexpectedData and exactly the non-final chunks were written — the final chunk is withheld *)
+Theorem C03_extension_rejected :
+  forall (P : prims) (key aad : bytes) (cs : N),
+  length key = 32%nat ->
+  aead_ok P ->
+  cs < 4294967296 ->
+  forall (chunks : list bytes) (x : N) (rest : list N) (s : io),
+  chunks <> [] ->
+  Forall (chunk_ok cs) chunks ->
+  reader_ok (rdr s) ->
+  writer_ok (wtr s) ->
+  r_data (rdr s) = spec_chunks P key aad chunks ++ x :: rest ->
+  exists s' : io,
+    decrypt_chunks P key aad cs s = (Err DUnexpectedData, s') /\
+    w_out (wtr s') = w_out (wtr s) ++ concat (removelast chunks).
+Proof. exact (dec_extension_rejected). Qed.
+Print Assumptions C03_extension_rejected.
+
+(* (B) the same offered bytes under EVERY script: the sink only ever holds a prefix of the honest plaintext; Ok implies exactly the complete plaintext was written; and if no read returns 0 bytes while data remains (the Read contract) the result is never Ok and at most the non-final chunks were written.  (The zero-length-read caveat is real: see C10_zero_read_caveat.) *)
+Theorem C03_extension_any_script :
+  forall (P : prims) (key aad : bytes) (cs : N),
+  length key = 32%nat ->
+  aead_ok P ->
+  cs < 4294967296 ->
+  forall (chunks : list bytes) (x : N) (rest : list N) (s : io) (res : outcome derr unit) (s' : io),
+  chunks <> [] ->
+  Forall (chunk_ok cs) chunks ->
+  r_data (rdr s) = spec_chunks P key aad chunks ++ x :: rest ->
+  decrypt_chunks P key aad cs s = (res, s') ->
+  exists written : list N,
+    w_out (wtr s') = w_out (wtr s) ++ written /\
+    (exists more : list N, concat chunks = written ++ more) /\
+    (res = Ok tt -> written = concat chunks) /\
+    (Forall rd_nonzero (r_script (rdr s)) ->
+     res <> Ok tt /\ (exists more : list N, concat (removelast chunks) = written ++ more)).
+Proof. exact (dec_extension_any_script). Qed.
+Print Assumptions C03_extension_any_script.
+
+(* (B) FILE level, password mode: every proper prefix of an honest password file (truncation anywhere, header included) is rejected under every script; the sink holds a prefix of the plaintext *)
+Theorem C03_pass_file_prefix_rejected :
+  forall P : prims,
+  aead_ok P ->
+  hash_ok P ->
+  forall (pw : bytes) (salt : list N) (chunks : list bytes) (data suffix : list N) 
+    (s : io) (res : outcome derr unit) (s' : io),
+  length salt = 32%nat ->
+  chunks <> [] ->
+  Forall (chunk_ok cs_const) chunks ->
+  data ++ suffix = spec_pass_file P pw salt chunks ->
+  suffix <> [] ->
+  r_data (rdr s) = data ->
+  pass_decrypt P pw s = (res, s') ->
+  res <> Ok tt /\
+  (exists written more : list N,
+     w_out (wtr s') = w_out (wtr s) ++ written /\ concat chunks = written ++ more).
+Proof. exact (pass_file_prefix_rejected). Qed.
+Print Assumptions C03_pass_file_prefix_rejected.
+
+(* (B) FILE level, password mode: honest file followed by >= 1 byte, conforming scripts: Err DUnexpectedData, only the non-final chunks written *)
+Theorem C03_pass_file_extension_rejected :
+  forall P : prims,
+  aead_ok P ->
+  hash_ok P ->
+  forall (pw : bytes) (salt : list N) (chunks : list bytes) (x : N) (rest : list N) (s : io),
+  length salt = 32%nat ->
+  chunks <> [] ->
+  Forall (chunk_ok cs_const) chunks ->
+  reader_ok (rdr s) ->
+  writer_ok (wtr s) ->
+  r_data (rdr s) = spec_pass_file P pw salt chunks ++ x :: rest ->
+  exists s' : io,
+    pass_decrypt P pw s = (Err DUnexpectedData, s') /\
+    w_out (wtr s') = w_out (wtr s) ++ concat (removelast chunks).
+Proof. exact (pass_file_extension_rejected). Qed.
+Print Assumptions C03_pass_file_extension_rejected.
+
+(* (B) ... every script: prefix of the plaintext in the sink, Ok only with exactly the complete plaintext *)
+Theorem C03_pass_file_extension_any_script :
+  forall P : prims,
+  aead_ok P ->
+  hash_ok P ->
+  forall (pw : bytes) (salt : list N) (chunks : list bytes) (x : N) (rest : list N) 
+    (s : io) (res : outcome derr unit) (s' : io),
+  length salt = 32%nat ->
+  chunks <> [] ->
+  Forall (chunk_ok cs_const) chunks ->
+  r_data (rdr s) = spec_pass_file P pw salt chunks ++ x :: rest ->
+  pass_decrypt P pw s = (res, s') ->
+  exists written : list N,
+    w_out (wtr s') = w_out (wtr s) ++ written /\
+    (exists more : list N, concat chunks = written ++ more) /\ (res = Ok tt -> written = concat chunks).
+Proof. exact (pass_file_extension_any_script). Qed.
+Print Assumptions C03_pass_file_extension_any_script.
+
+(* (B) FILE level, key mode.  The honest file is prologue ++ msg ++ stream where msg is a 128-byte handshake that (r, rpk) accepts with result (payload, spk, hh) and the stream is under HKDF(payload, hh) — e.g. any file written by key_encrypt (C03_key_encrypt_honest_file).  Every proper prefix is rejected under every script. *)
+Theorem C03_key_file_prefix_rejected :
+  forall P : prims,
+  aead_ok P ->
+  hash_ok P ->
+  forall (r rpk : bytes) (msg : list N) (hh payload spk : bytes) (chunks : list bytes)
+    (data suffix : list N) (s : io) (res : outcome derr bytes) (s' : io),
+  length msg = 128%nat ->
+  noise_decrypt P r rpk x_prologue msg = Ok (payload, spk, hh) ->
+  chunks <> [] ->
+  Forall (chunk_ok cs_const) chunks ->
+  data ++ suffix = spec_key_file P msg hh payload chunks ->
+  suffix <> [] ->
+  r_data (rdr s) = data ->
+  key_decrypt P r rpk s = (res, s') ->
+  (forall spk' : bytes, res <> Ok spk') /\
+  (exists written more : list N,
+     w_out (wtr s') = w_out (wtr s) ++ written /\ concat chunks = written ++ more).
+Proof. exact (key_file_prefix_rejected). Qed.
+Print Assumptions C03_key_file_prefix_rejected.
+
+(* (B) key file followed by >= 1 byte, conforming scripts: Err DUnexpectedData, only the non-final chunks written *)
+Theorem C03_key_file_extension_rejected :
+  forall P : prims,
+  aead_ok P ->
+  hash_ok P ->
+  forall (r rpk : bytes) (msg : list N) (hh payload spk : bytes) (chunks : list bytes) 
+    (x : N) (rest : list N) (s : io),
+  length msg = 128%nat ->
+  noise_decrypt P r rpk x_prologue msg = Ok (payload, spk, hh) ->
+  chunks <> [] ->
+  Forall (chunk_ok cs_const) chunks ->
+  reader_ok (rdr s) ->
+  writer_ok (wtr s) ->
+  r_data (rdr s) = spec_key_file P msg hh payload chunks ++ x :: rest ->
+  exists s' : io,
+    key_decrypt P r rpk s = (Err DUnexpectedData, s') /\
+    w_out (wtr s') = w_out (wtr s) ++ concat (removelast chunks).
+Proof. exact (key_file_extension_rejected). Qed.
+Print Assumptions C03_key_file_extension_rejected.
+
+(* (B) ... every script: Ok only with the honest sender key and exactly the complete plaintext *)
+Theorem C03_key_file_extension_any_script :
+  forall P : prims,
+  aead_ok P ->
+  hash_ok P ->
+  forall (r rpk : bytes) (msg : list N) (hh payload spk : bytes) (chunks : list bytes) 
+    (x : N) (rest : list N) (s : io) (res : outcome derr bytes) (s' : io),
+  length msg = 128%nat ->
+  noise_decrypt P r rpk x_prologue msg = Ok (payload, spk, hh) ->
+  chunks <> [] ->
+  Forall (chunk_ok cs_const) chunks ->
+  r_data (rdr s) = spec_key_file P msg hh payload chunks ++ x :: rest ->
+  key_decrypt P r rpk s = (res, s') ->
+  exists written : list N,
+    w_out (wtr s') = w_out (wtr s) ++ written /\
+    (exists more : list N, concat chunks = written ++ more) /\
+    (forall spk' : bytes, res = Ok spk' -> spk' = spk /\ written = concat chunks).
+Proof. exact (key_file_extension_any_script). Qed.
+Print Assumptions C03_key_file_extension_any_script.
+
+(* the files key_encrypt writes are honest files in the sense of the three theorems above (needs dh_comm, the X25519 commutativity hypothesis) *)
+Theorem C03_key_encrypt_honest_file :
+  forall P : prims,
+  aead_ok P ->
+  hash_ok P ->
+  forall (fresh_pk fresh_e : bytes) (s r : list N) (e epk pk : option bytes) (e' : bytes) (s0 : io),
+  dh_comm P ->
+  eph_of P fresh_e e epk = (e', dh_pub P e') ->
+  length e' = 32%nat ->
+  length s = 32%nat ->
+  length r = 32%nat ->
+  length (payload_of fresh_pk pk) = 32%nat ->
+  all_zero (p_dh P e' (dh_pub P r)) = false ->
+  all_zero (p_dh P s (dh_pub P r)) = false ->
+  reader_ok (rdr s0) ->
+  writer_ok (wtr s0) ->
+  exists (msg : list N) (hh : bytes) (s0' : io),
+    length msg = 128%nat /\
+    noise_decrypt P r (dh_pub P r) x_prologue msg = Ok (payload_of fresh_pk pk, dh_pub P s, hh) /\
+    key_encrypt P fresh_pk fresh_e s (dh_pub P s) (dh_pub P r) e epk pk s0 = (Ok tt, s0') /\
+    w_out (wtr s0') =
+    w_out (wtr s0) ++
+    spec_key_file P msg hh (payload_of fresh_pk pk)
+      (chunks_of_reads (reads_of (N.to_nat cs_const) (rdr s0))).
+Proof. exact (key_encrypt_honest_file). Qed.
+Print Assumptions C03_key_encrypt_honest_file.
+
+(* (B) any offered bytes whose first record is well framed, conforming reader, any writer: if that record does not open under the key in use the result is Err DChaPolyDecrypt and the writer is never called *)
+Theorem C03_first_record_wrong_key :
+  forall (P : prims) (key' aad : bytes) (cs : N),
+  length key' = 32%nat ->
+  forall (s : io) (hdr ct rest : list N) (res : outcome derr unit) (s' : io) (d : list event),
+  reader_ok (rdr s) ->
+  r_data (rdr s) = hdr ++ ct ++ rest ->
+  length hdr = 16%nat ->
+  de32 (hdr_len hdr) <= cs ->
+  length ct = (N.to_nat (de32 (hdr_len hdr)) + 16)%nat ->
+  decrypt_chunks P key' aad cs s = (res, s') ->
+  log s' = d ++ log s ->
+  (forall (m : N) (ad c pt : bytes), ~ In (EvOpen key' m ad c (Some pt)) d) ->
+  res = Err DChaPolyDecrypt /\ wtr s' = wtr s /\ Forall no_out_ev d /\ r_data (rdr s') = rest.
+Proof. exact (dec_first_record_wrong_key). Qed.
+Print Assumptions C03_first_record_wrong_key.
+
